@@ -367,6 +367,10 @@ def _run_check(prop: str, tier: str, seed: int, replay_file: str | None = None, 
     for key in sorted(merged.failures):
         lst = merged.failures[key]
         bucket = lst[0]["bucket"]
+        if bucket and str(bucket[0]) in ("harness", "harness-stall"):
+            # the machinery contradicted itself (e.g. its two ground truths disagree): inconclusive, never a violation
+            harness_errors.append(f"self-check {'/'.join(map(str, bucket))}: {lst[0]['detail'][:400]}")
+            continue
         entry = find_known(known, prop, bucket)
         if entry is not None:
             known_hits += 1
